@@ -181,7 +181,7 @@ non-trivial = payload non-empty and one of {>=2 deflate blocks, >=2 segments, a 
     }
 
     fn cases_per_worker(tier: Tier) -> u32 {
-        tier.pick(1000, 12_000)
+        tier.pick(1000, 40_000)
     }
 
     fn strategy(tier: Tier) -> BoxedStrategy<Case> {
